@@ -14,7 +14,7 @@ INTERSTITIAL_WORLDS = [   # (world, species index of the diffuser, jump shell)
 VACANCY_WORLDS = [        # (world, species index of the vacancy sublattice, jump shell)
     ("fcc", 0, 1), ("hcp", 0, 2), ("square", 0, 1), ("honeycomb", 0, 1), ("bcc", 0, 1), ("hex2d", 0, 1),
     ("b2", 0, 1), ("polarrect", 1, 2), ("sc", 0, 1), ("diamond", 0, 1), ("rect2site", 0, 2), ("tet2", 0, 2),
-    ("sqpolar", 1, 1),
+    ("sqpolar", 1, 1), ("wurtzite", 0, 1),
 ]
 
 
